@@ -1,12 +1,87 @@
-"""C06 - decided on the two concurrent protocols (see concrun.py)."""
+"""C06 - decided on the two concurrent protocols (see concrun.py), plus the dataset-level views of a
+prefetch stage with `catch_filter_exception` (the stage reached directly, through copies, through a
+profiling wrapper and through a lazy apply) against a serial reference."""
+import random
+import warnings
+
+import common
 import concrun
 
 WHICH = ('C06',)
 
 
+def view_cases(rng):
+    import lazy_dataset
+    from lazy_dataset.core import FilterException, ProfilingDataset
+    from canon import run_stream
+    common.gc_point()
+    fails = []
+    n = rng.randint(1, 8)
+    bad = set(rng.sample(range(n), rng.randint(0, n)))
+    other = rng.choice([None, None, rng.randrange(n)])
+
+    class Sub(FilterException):
+        pass
+
+    def f(x):
+        if x == other:
+            raise ValueError(x)
+        if x in bad:
+            raise (Sub(x) if x % 2 else FilterException(x))
+        return x * 10
+    want_vals, want_err = [], None
+    for x in range(n):
+        if x == other:
+            want_err = 'ValueError'
+            break
+        if x not in bad:
+            want_vals.append(x * 10)
+    w, b = rng.choice([(1, 1), (1, 3), (2, 2), (2, 4), (3, 3)])
+    sel = rng.choice([True, (FilterException,), (KeyError, FilterException)])
+    keyed = rng.random() < 0.4
+    src = {f'k{j}': j for j in range(n)} if keyed else list(range(n))
+
+    def mk():
+        return lazy_dataset.new(src).map(f).prefetch(w, b, catch_filter_exception=sel)
+    views = {
+        'direct': lambda: mk(),
+        'copy': lambda: mk().copy(),
+        'copy_freeze': lambda: mk().copy(freeze=True),
+        'profiled': lambda: ProfilingDataset(mk()),
+        'map_above_copy': lambda: mk().map(lambda x: x).copy(freeze=True),
+        'lazy_apply': lambda: mk().apply(lambda d: d, lazy=True),
+    }
+    with warnings.catch_warnings():
+        warnings.simplefilter('ignore')
+        for name, mkv in views.items():
+            got = run_stream(mkv)
+            if got != {'vals': want_vals, 'err': want_err}:
+                fails.append(('catch_filter_exception_view', {'view': name, 'n': n, 'raising_selected': sorted(bad), 'raising_other': other,
+                                                               'workers': w, 'buffer': b, 'selection': repr(sel), 'keyed': keyed,
+                                                               'got': got, 'serial_reference': {'vals': want_vals, 'err': want_err}}))
+                break
+    return fails
+
+
 def run(rep):
-    return concrun.run(rep, 'C06', WHICH)
+    concrun.run(rep, 'C06', WHICH)
+    rng = random.Random(rep.seed * 61 + 6)
+    n = 60 if rep.tier == 'quick' else 1500
+    fails = []
+    for _ in range(n):
+        fails += view_cases(rng)
+    seen = set()
+    for cl, det in fails:
+        if (cl, det['view']) not in seen and len(rep.violations) < 4:
+            seen.add((cl, det['view']))
+            rep.violation({'property': 'C06', 'kind': 'oracle-failure', 'clause': cl, 'detail': det})
+    rep.coverage['dataset_level_views'] = {'cases': n, 'views': ['direct', 'copy', 'copy_freeze', 'profiled', 'map_above_copy', 'lazy_apply'],
+                                           'failures': len(fails)}
+    return rep
 
 
 def replay(j):
+    if j.get('clause') == 'catch_filter_exception_view':
+        print(j)
+        return 1
     return concrun.replay('C06', WHICH, j)
